@@ -574,7 +574,9 @@ func (in *Interp) runFrame(fr *frame) {
 			}
 		}
 	}()
-	tolerant := fr.fn.Synthetic == "package initializer" && fr.fn.Pkg != nil && !strings.HasPrefix(fr.fn.Pkg.Pkg.Path(), "github.com/rqlite/rqlite")
+	// every package initializer is executed tolerantly: what cannot be computed is poisoned and
+	// any later use of a poisoned variable stops the run (fail closed)
+	tolerant := fr.fn.Synthetic == "package initializer" && fr.fn.Pkg != nil
 	for {
 		nonPhis := in.executePhis(fr)
 		for _, instr := range nonPhis {
